@@ -58,7 +58,7 @@ def _templates(ctx):
     return ctx.memo("loadeval_templates", build)
 
 
-def make_state(ctx, fopen, bopen, twin=None):
+def make_state(ctx, fopen, bopen, twin=None, later=False):
     """twin: an instruction equal by value to the one about to be consumed; a copy of it already sits in every list of the module, the
     open function and the open block (so that "already present" is not confused with "nothing to do")"""
     t = copy.deepcopy(_templates(ctx))
@@ -80,6 +80,19 @@ def make_state(ctx, fopen, bopen, twin=None):
             b0[2]["instructions"][1].append(copy.deepcopy(twin))
     if fopen and twin is not None:
         f0[2]["parameters"][1].append(copy.deepcopy(twin))
+    if later:
+        # not the first of its kind: the module already has a finished function and the open function a finished block
+        t2 = copy.deepcopy(_templates(ctx))
+        done_b = t2["Block"]
+        done_b[2]["label"] = ("some", ("sym", "FINISHED_LABEL"))
+        done_b[2]["instructions"][1].append(("sym", "FINISHED_TERMINATOR"))
+        done_f = t2["Function"]
+        done_f[2]["def"] = ("some", ("sym", "FINISHED_DEF"))
+        done_f[2]["end"] = ("some", ("sym", "FINISHED_END"))
+        done_f[2]["blocks"][1].append(copy.deepcopy(done_b))
+        ld[2]["module"][2]["functions"][1].append(done_f)
+        if fopen:
+            f0[2]["blocks"][1].append(done_b)
     return ld, f0, b0
 
 
@@ -127,10 +140,10 @@ def _find(obj, inst, prefix, out, seen):
                     out.append(prefix + k)
 
 
-def run(ctx, fname, opcode, fopen, bopen):
+def run(ctx, fname, opcode, fopen, bopen, later=False):
     f = ctx.rspirv.fn(LDR, fname, "Loader", "Consumer")
     inst = instruction(opcode, ctx) if opcode is not None else None
-    ld, f0, b0 = make_state(ctx, fopen, bopen, inst)
+    ld, f0, b0 = make_state(ctx, fopen, bopen, inst, later)
     h = LH(ctx)
     ev = progx.make(h, "Loader::" + fname)
     env = {"self": ld}
@@ -185,8 +198,8 @@ def run(ctx, fname, opcode, fopen, bopen):
     return ("ok", sinks, st, events), moves
 
 
-def consume(ctx, opcode, fopen, bopen):
-    return run(ctx, "consume_instruction", opcode, fopen, bopen)
+def consume(ctx, opcode, fopen, bopen, later=False):
+    return run(ctx, "consume_instruction", opcode, fopen, bopen, later)
 
 
 def finalize(ctx, fopen, bopen):
